@@ -176,12 +176,23 @@ def build(shape, gin, lists_on='target'):
           return f(*args, **kwargs)
         return inner
       target = deco(target)
+    if shape.get('also_as') and api != 'configurable':
+      # the very same function object is registered under another name first (without lists):
+      # each registration is a configurable of its own, with its own bindings and lists
+      first_kw = {k: v for k, v in reg_kwargs.items() if k not in ('allowlist', 'denylist')}
+      if 'module' not in first_kw:
+        first_kw['module'] = modname
+      gin.external_configurable(target, name=shape['also_as'], **first_kw)
     tw = shape.get('twin_required_defaults')
+    if tw is None and shape.get('twin_other_defaults'):
+      tw = list(shape.get('required_defaults') or [])
     if tw is not None:
       # a sibling made from the very same `def` (one code object, as a factory or a closure
       # produces them) whose defaults differ, registered *first*
       src2 = (f'def {name}_twinsrc({signature_source(dict(shape, required_defaults=list(tw)))}):\n'
               f'  return 0\n')
+      if shape.get('twin_other_defaults'):
+        src2 = src2.replace("='D:", "='TWIN:")
       exec(compile(src2, f'<{modname}>', 'exec'), mod.__dict__)  # pylint: disable=exec-used
       t = mod.__dict__[name + '_twinsrc']
       twin = types.FunctionType(original.__code__, original.__globals__, name + '_twin',
